@@ -44,6 +44,10 @@ func pngWithICCP(w, h uint32, z []byte) []byte {
 	binary.BigEndian.PutUint32(ihdr[4:], h)
 	ihdr[8], ihdr[9] = 8, 2
 	chunk("IHDR", ihdr)
+	// ancillary chunks in front of the profile, as real encoders write them (one of them longer than a kilobyte)
+	chunk("gAMA", []byte{0, 0, 0xb1, 0x8f})
+	chunk("pHYs", []byte{0, 0, 0x0b, 0x13, 0, 0, 0x0b, 0x13, 1})
+	chunk("tEXt", append([]byte("Comment\x00"), bytes.Repeat([]byte("prism "), 200)...))
 	chunk("iCCP", append([]byte("prof\x00\x00"), z...))
 	chunk("IDAT", nil)
 	chunk("IEND", nil)
